@@ -247,6 +247,30 @@ structure I4 (s : PState) (m : M4) : Prop where
   openEq : m.openRec = s.isRec
   runEq : s.isRec = false → m.run = s.triggered
 
+/-- the monitor side of one frame event, against an abstract summary of the observations -/
+theorem m4_frame (trig : Nat) (m : M4) (motion : Bool) (f : Faults) (obs : List Obs) (A d : Bool) (t : Nat)
+    (hf : m.fails = []) (ho : m.openRec = A) (hr : A = false → m.run = t)
+    (h1 : hasStop obs = ((A || !A && motion && decide (trig ≤ t + 1) && f.win && f.can && f.mStart) && d))
+    (h2 : hasStartOk obs = (!A && motion && decide (trig ≤ t + 1) && f.win && f.can && f.mStart))
+    (h3 : hasCan obs = (!A && motion && decide (trig ≤ t + 1) && f.win))
+    (h4 : hasStartAny obs = (!A && motion && decide (trig ≤ t + 1) && f.win && f.can)) :
+    (M4.step trig m ⟨.frame motion f, obs⟩).fails = [] ∧
+    (M4.step trig m ⟨.frame motion f, obs⟩).openRec =
+      ((A || !A && motion && decide (trig ≤ t + 1) && f.win && f.can && f.mStart) &&
+       !((A || !A && motion && decide (trig ≤ t + 1) && f.win && f.can && f.mStart) && d)) ∧
+    ((M4.step trig m ⟨.frame motion f, obs⟩).openRec = false →
+      (M4.step trig m ⟨.frame motion f, obs⟩).run =
+        if ((A || !A && motion && decide (trig ≤ t + 1) && f.win && f.can && f.mStart) && d) then 0
+        else if motion then t + 1 else 0) := by
+  simp only [M4.step, h1, h2, h3, h4, hf, ho]
+  clear h1 h2 h3 h4 hf ho
+  cases A
+  · have := hr rfl
+    subst this
+    cases motion <;> cases d <;> cases f.win <;> cases f.can <;> cases f.mStart <;>
+      by_cases ht : trig ≤ m.run + 1 <;> simp [ht]
+  · cases motion <;> cases d <;> simp
+
 theorem i4_frame (c : PCfg) (s : PState) (m : M4) (motion : Bool) (f : Faults) (h : I4 s m) :
     I4 (processFrame c s motion f).1
        (M4.step c.trig m ⟨.frame motion f, (processFrame c s motion f).2⟩) := by
@@ -254,14 +278,197 @@ theorem i4_frame (c : PCfg) (s : PState) (m : M4) (motion : Bool) (f : Faults) (
   obtain ⟨f1, f2, f3, f4, _, f6, _, _, f9, _, _⟩ := frame_spec c s motion f
   obtain ⟨p1, p2, p3, p4, p5, p6, _⟩ := process_spec c (pre s) motion f
   rw [p4] at f1; rw [p1] at f2; rw [p2] at f3; rw [p3] at f4; rw [p5] at f6; rw [p6] at f9
-  simp only [stops] at f1 f6 f9
-  generalize decide (wu1 c (pre s) motion f ≤ (pre s).framesWritten + 1) = d at *
+  obtain ⟨d, hd⟩ : ∃ d, stops c (pre s) motion f = (rec1 c (pre s) motion f && d) := ⟨_, rfl⟩
+  rw [hd] at f1 f6 f9
+  clear p1 p2 p3 p4 p5 p6 hd
   simp only [rec1, starts, attempt, pre] at f1 f2 f3 f4 f6 f9
-  constructor
-  · simp only [M4.step, f1, f2, f3, f4, hf, ho]
-    trace_state
-    sorry
-  · sorry
-  · sorry
+  obtain ⟨g1, g2, g3⟩ := m4_frame c.trig m motion f _ s.isRec d s.triggered hf ho hr f1 f2 f3 f4
+  exact ⟨g1, g2.trans f6.symm, fun hn => (g3 (g2.trans (f6.symm.trans hn))).trans f9.symm⟩
+
+theorem i4_step (c : PCfg) (s : PState) (m : M4) (ev : Ev) (h : I4 s m) :
+    I4 (PState.step c s ev).1 (M4.step c.trig m ⟨ev, (PState.step c s ev).2⟩) := by
+  cases ev with
+  | frame motion f => exact i4_frame c s m motion f h
+  | bad f =>
+    obtain ⟨hf, ho, hr⟩ := h
+    cases hrec : s.isRec <;>
+      constructor <;>
+      simp_all [PState.step, processBad, andThen, stopRecording, stopConstantRecorder, M4.step] <;>
+      split <;> simp_all
+  | reset f =>
+    obtain ⟨hf, ho, hr⟩ := h
+    cases hrec : s.isRec <;>
+      constructor <;> simp_all [PState.step, stopRecording, M4.step]
+  | testReq =>
+    obtain ⟨hf, ho, hr⟩ := h
+    constructor <;> simp_all [PState.step, M4.step]
+
+theorem i4_init (c : PCfg) : I4 (PState.init c) {} := by
+  constructor <;> simp [PState.init]
+
+theorem i4_trace (c : PCfg) (evs : List Ev) (s : PState) (m : M4) (h : I4 s m) :
+    I4 (PState.after c s evs) ((PState.trace c s evs).foldl (M4.step c.trig) m) := by
+  induction evs generalizing s m with
+  | nil => exact h
+  | cons e es ih =>
+    simp only [PState.after, PState.trace, List.foldl_cons]
+    exact ih _ _ (i4_step c s m e h)
+
+/-! ## C03 invariant -/
+
+theorem m3_frame (minF maxF : Nat) (hmm : minF ≤ maxF) (m : M3) (motion : Bool) (f : Faults) (obs : List Obs)
+    (A st : Bool) (fw wu w : Nat)
+    (ht : m.tainted = false) (hf : m.fails = []) (ho : m.openRec = A)
+    (hidle : A = false → fw = 0)
+    (hrec : A = true → fw = m.p ∧ 1 ≤ m.l ∧ m.l ≤ m.p ∧ wu = min maxF (m.l - 1 + minF) ∧ m.p < wu)
+    (hst : st = true → A = false ∧ motion = true)
+    (hwA : A = true → w = if motion then min (fw + minF) maxF else wu)
+    (hwS : st = true → w = minF)
+    (h0 : mwf obs = false) (h1 : hasStartOk obs = st)
+    (h2 : hasStop obs = ((A || st) && decide (w ≤ fw + 1))) :
+    (M3.step minF maxF m ⟨.frame motion f, obs⟩).tainted = false ∧
+    (M3.step minF maxF m ⟨.frame motion f, obs⟩).fails = [] ∧
+    (M3.step minF maxF m ⟨.frame motion f, obs⟩).openRec = ((A || st) && !((A || st) && decide (w ≤ fw + 1))) ∧
+    ((M3.step minF maxF m ⟨.frame motion f, obs⟩).openRec = true →
+      fw + 1 = (M3.step minF maxF m ⟨.frame motion f, obs⟩).p ∧
+      1 ≤ (M3.step minF maxF m ⟨.frame motion f, obs⟩).l ∧
+      (M3.step minF maxF m ⟨.frame motion f, obs⟩).l ≤ (M3.step minF maxF m ⟨.frame motion f, obs⟩).p ∧
+      w = min maxF ((M3.step minF maxF m ⟨.frame motion f, obs⟩).l - 1 + minF) ∧
+      (M3.step minF maxF m ⟨.frame motion f, obs⟩).p < w) := by
+  simp only [M3.step, motionWriteFault_eq, h0, h1, h2, ho]
+  cases A
+  · cases st
+    · simp [ho, ht, hf]
+    · obtain ⟨-, rfl⟩ := hst rfl
+      have := hidle rfl
+      subst this
+      have hw := hwS rfl
+      subst hw
+      by_cases hd : w ≤ 0 + 1 <;> simp [hd, ht, hf, ho]
+      all_goals omega
+  · obtain ⟨rfl, hl1, hl2, rfl, hp⟩ := hrec rfl
+    have hst' : st = false := by cases st <;> simp_all
+    subst hst'
+    cases motion
+    · have hw := hwA rfl
+      simp only [Bool.false_eq_true, if_false] at hw
+      subst hw
+      by_cases hd : min maxF (m.l - 1 + minF) ≤ m.p + 1 <;> simp [hd, ht, hf, ho]
+      all_goals omega
+    · have hw := hwA rfl
+      simp only [if_true] at hw
+      subst hw
+      by_cases hd : min (m.p + minF) maxF ≤ m.p + 1 <;> simp [hd, ht, hf, ho]
+      all_goals omega
+
+structure I3 (c : PCfg) (s : PState) (m : M3) : Prop where
+  ring : ∃ mark, RBase c.K s.ring s.n mark
+  taint : m.tainted = false
+  fails : m.fails = []
+  openEq : m.openRec = s.isRec
+  idle : s.isRec = false → s.framesWritten = 0 ∧ s.writeUntil = 0
+  recd : s.isRec = true → s.framesWritten = m.p ∧ 1 ≤ m.l ∧ m.l ≤ m.p ∧
+    s.writeUntil = min c.maxF (m.l - 1 + c.minF) ∧ m.p < s.writeUntil
+
+theorem i3_frame (c : PCfg) (hmm : c.minF ≤ c.maxF) (s : PState) (m : M3) (motion : Bool) (f : Faults)
+    (hfz : f.mWriteFail = 0) (h : I3 c s m) :
+    I3 c (processFrame c s motion f).1
+       (M3.step c.minF c.maxF m ⟨.frame motion f, (processFrame c s motion f).2⟩) := by
+  obtain ⟨⟨mark, hring⟩, ht, hf, ho, hidle, hrec⟩ := h
+  obtain ⟨f1, f2, _, _, f5, f6, f7, f8, _, f10, f11⟩ := frame_spec c s motion f
+  obtain ⟨p1, _, _, p4, p5, _, p7, p8, p9, _⟩ := process_spec c (pre s) motion f
+  have p0 := process_nofault c (pre s) motion f hfz
+  rw [p4] at f1; rw [p1] at f2; rw [p0] at f5; rw [p5] at f6; rw [p7] at f7; rw [p8] at f8; rw [p9] at f10
+  clear p0 p1 p4 p5 p7 p8 p9
+  have hst : starts c (pre s) motion f = true → s.isRec = false ∧ motion = true := by
+    simp only [starts, attempt, pre]
+    cases s.isRec <;> cases motion <;> simp
+  have hwA : s.isRec = true → wu1 c (pre s) motion f =
+      if motion then min (s.framesWritten + c.minF) c.maxF else s.writeUntil := by
+    intro hA; simp [wu1, pre, hA]
+  have hwS : starts c (pre s) motion f = true → wu1 c (pre s) motion f = c.minF := by
+    intro hS
+    have hA := (hst hS).1
+    have hh : (pre s).ring.history = some _ := rbase_history hring
+    unfold wu1 startWU
+    rw [hS, hh]
+    simp [pre, hA, hfz, pt_nofault]
+  have f1' : hasStop (processFrame c s motion f).2 =
+      ((s.isRec || starts c (pre s) motion f) && decide (wu1 c (pre s) motion f ≤ s.framesWritten + 1)) := f1
+  obtain ⟨g1, g2, g3, g4⟩ := m3_frame c.minF c.maxF hmm m motion f _ s.isRec (starts c (pre s) motion f)
+    s.framesWritten s.writeUntil (wu1 c (pre s) motion f) ht hf ho (fun h => (hidle h).1) hrec hst hwA hwS f5 f2 f1'
+  have hopen := g3.trans f6.symm
+  refine ⟨?_, g1, g2, hopen, ?_, ?_⟩
+  · rw [f10, f11]
+    have h1 : RBase c.K (pre s).ring.move (s.n + 1) mark := rbase_accept hring
+    split
+    · exact ⟨_, rbase_mark h1⟩
+    · exact ⟨_, h1⟩
+  · intro hn
+    rw [f6] at hn; rw [f7, f8]
+    cases hR : rec1 c (pre s) motion f
+    · have hA : s.isRec = false := by
+        simp only [rec1, pre, Bool.or_eq_false_iff] at hR; exact hR.1
+      simpa [pre] using hidle hA
+    · rw [hR] at hn
+      have hS : stops c (pre s) motion f = true := by simpa using hn
+      simp [hS]
+  · intro hn
+    have g := g4 (hopen.trans hn)
+    rw [f6] at hn
+    have hR : rec1 c (pre s) motion f = true := by
+      cases hR : rec1 c (pre s) motion f <;> simp_all
+    have hS : stops c (pre s) motion f = false := by
+      cases hS : stops c (pre s) motion f <;> simp_all
+    rw [f7, f8, hR, hS]
+    exact g
+
+theorem i3_step (c : PCfg) (hmm : c.minF ≤ c.maxF) (s : PState) (m : M3) (ev : Ev)
+    (hfz : ev.faults.mWriteFail = 0) (h : I3 c s m) :
+    I3 c (PState.step c s ev).1 (M3.step c.minF c.maxF m ⟨ev, (PState.step c s ev).2⟩) := by
+  cases ev with
+  | frame motion f => exact i3_frame c hmm s m motion f hfz h
+  | bad f =>
+    obtain ⟨⟨mark, hring⟩, ht, hf, ho, hidle, hrec⟩ := h
+    have hw := rbase_write garbage hring
+    cases hA : s.isRec
+    · refine ⟨⟨mark, ?_⟩, ?_, ?_, ?_, ?_, ?_⟩ <;>
+        simp_all [PState.step, processBad, andThen, stopRecording, stopConstantRecorder, M3.step,
+          motionWriteFault_eq] <;>
+        split <;> simp_all [mwf_cons, mwf_nil]
+    · refine ⟨⟨s.n, ?_⟩, ?_, ?_, ?_, ?_, ?_⟩
+      · have := rbase_mark hw
+        simpa [PState.step, processBad, andThen, stopRecording, stopConstantRecorder, hA] using this
+      all_goals
+        simp_all [PState.step, processBad, andThen, stopRecording, stopConstantRecorder, M3.step,
+          motionWriteFault_eq, mwf_cons, mwf_nil, mwf_append] <;>
+        split <;> simp_all [mwf_cons, mwf_nil]
+  | reset f =>
+    obtain ⟨⟨mark, hring⟩, ht, hf, ho, hidle, hrec⟩ := h
+    cases hA : s.isRec
+    · refine ⟨⟨mark, ?_⟩, ?_, ?_, ?_, ?_, ?_⟩ <;>
+        simp_all [PState.step, stopRecording, M3.step, motionWriteFault_eq, mwf_nil]
+    · refine ⟨⟨s.n, ?_⟩, ?_, ?_, ?_, ?_, ?_⟩
+      · have := rbase_mark hring
+        simpa [PState.step, stopRecording, hA] using this
+      all_goals
+        simp_all [PState.step, stopRecording, M3.step, motionWriteFault_eq, mwf_cons, mwf_nil]
+  | testReq =>
+    obtain ⟨⟨mark, hring⟩, ht, hf, ho, hidle, hrec⟩ := h
+    refine ⟨⟨mark, ?_⟩, ?_, ?_, ?_, ?_, ?_⟩ <;>
+      simp_all [PState.step, M3.step, motionWriteFault_eq, mwf_nil]
+
+theorem i3_init (c : PCfg) (hK : 0 < c.K) : I3 c (PState.init c) {} := by
+  refine ⟨⟨0, rbase_init c.K hK⟩, ?_, ?_, ?_, ?_, ?_⟩ <;> simp [PState.init]
+
+theorem i3_trace (c : PCfg) (hmm : c.minF ≤ c.maxF) (evs : List Ev) (s : PState) (m : M3)
+    (hw : ∀ ev ∈ evs, ev.faults.mWriteFail = 0) (h : I3 c s m) :
+    I3 c (PState.after c s evs) ((PState.trace c s evs).foldl (M3.step c.minF c.maxF) m) := by
+  induction evs generalizing s m with
+  | nil => exact h
+  | cons e es ih =>
+    simp only [PState.after, PState.trace, List.foldl_cons]
+    exact ih _ _ (fun ev hev => hw ev (List.mem_cons_of_mem _ hev))
+      (i3_step c hmm s m e (hw e (List.mem_cons_self ..)) h)
 
 end TR.P03
